@@ -26,6 +26,9 @@ def normLit (a : Atom) : Expr :=
     match fltNegText c.toList with
     | some t => .un .neg (.lit (.num (.flt (String.ofList t))))
     | none => .lit a
+  | .dur ns lit =>
+    if lit.isEmpty && decide (ns < 0) then .un .neg (.lit (.dur (-ns) (formatDuration (-ns))))
+    else .lit (normAtom a)
   | a => .lit (normAtom a)
 
 mutual
@@ -60,7 +63,7 @@ def atomDecOK : Atom → Bool
     (decide (base = 8) && decide (0 ≤ v) && decide (v ≤ int64Max))
   | .num (.flt c) => fltDecOK ((fltNegText c.toList).getD c.toList)
   | .dur ns lit =>
-    if lit.isEmpty then decide (0 ≤ ns) && decide (ns ≤ int64Max) && decide (ns % 1000 = 0)
+    if lit.isEmpty then decide (-int64Max ≤ ns) && decide (ns ≤ int64Max) && decide (ns % 1000 = 0)
     else decide (newDur lit = .ok ns)
   | .rx re lit => decide (unescQ '/' (regexLiteral re lit).toList = re.toList) && rxValidB re.toList
 
@@ -146,13 +149,47 @@ theorem decode_atomRaws (a : Atom) (h : atomDecOK a = true) (x : Bool) :
     split at h
     · rename_i hl
       simp only [Bool.and_eq_true, decide_eq_true_eq] at h
-      have := decodeAll_single _ _ (decode_dur_value ns lit hl h.1.1 h.1.2 h.2)
-      simpa [atomRaws, normLit, normAtom, fmtToksP, hl] using this
+      by_cases h0 : 0 ≤ ns
+      · obtain ⟨n, u, k, hform, _, _, _⟩ := formatDuration_form ns h0 h.2
+        have hd := digitsOK_toDigits 10 (Or.inr rfl) n
+        obtain ⟨c, t, hct, hc⟩ := digitsOK_head hd
+        have ht : atomText (.dur ns lit) = (formatDuration ns).toList := by simp [atomText, fmtAtom, hl]
+        have hr : atomRaws (.dur ns lit) = [atomRaw (.dur ns lit)] := by
+          simp only [atomRaws, atomRaw, ht, hform, hct, List.cons_append]
+          exact splitMinus_other _ c _ (digit_ne c '-' hc (by decide))
+        rw [hr]
+        have := decodeAll_single _ _ (decode_dur_value ns lit hl h0 h.1.2 h.2)
+        have hneg : ¬ ns < 0 := by omega
+        simpa [normLit, normAtom, fmtToksP, hl, hneg] using this
+      · have hlt : ns < 0 := by omega
+        have ht : atomText (.dur ns lit) = '-' :: (formatDuration (-ns)).toList := by
+          simp [atomText, fmtAtom, hl, formatDuration_neg ns hlt]
+        have hr : atomRaws (.dur ns lit) = [.op .TokenMinus, .duration (formatDuration (-ns))] := by
+          simp only [atomRaws, ht, splitMinus_minus, String.ofList_toList]
+        rw [hr]
+        have hd : decode (.duration (formatDuration (-ns))) = .ok (.lit (.dur (-ns) (formatDuration (-ns)))) := by
+          simp [decode, newDur_formatDuration (-ns) (by omega) (by omega) (by omega)]
+        have h2 := decodeAll_cons (.op .TokenMinus) (.op .TokenMinus) _ _ rfl (decodeAll_single _ _ hd)
+        simpa [normLit, fmtToksP, hl, hlt] using h2
     · rename_i hl
       simp only [decide_eq_true_eq] at h
       have hl' : lit.isEmpty = false := by simpa using hl
+      have ht : atomText (.dur ns lit) = lit.toList := by simp [atomText, fmtAtom, hl']
+      have hne : ∀ t, lit.toList ≠ '-' :: t := by
+        intro t heq
+        have : newDur lit = .err := by
+          simp [newDur, heq, isDigit, parseInt64, parseNat]
+        rw [this] at h
+        exact absurd h (by simp)
+      have hr : atomRaws (.dur ns lit) = [atomRaw (.dur ns lit)] := by
+        simp only [atomRaws, atomRaw, ht]
+        unfold splitMinus
+        split
+        · rename_i t heq; exact absurd heq (hne t)
+        · rfl
+      rw [hr]
       have := decodeAll_single _ _ (decode_dur_lit ns lit hl' h)
-      simpa [atomRaws, normLit, normAtom, fmtToksP, hl'] using this
+      simpa [normLit, normAtom, fmtToksP, hl'] using this
   | num n =>
     cases n with
     | flt c =>
@@ -168,7 +205,7 @@ theorem decode_atomRaws (a : Atom) (h : atomDecOK a = true) (x : Bool) :
           · simp at hn
         have ht : atomText (.num (.flt c)) = '-' :: t := by rw [atomText_flt, hct]
         have hr : atomRaws (.num (.flt c)) = [.op .TokenMinus, .number (String.ofList t)] := by
-          simp [atomRaws, ht]
+          simp only [atomRaws, ht, splitMinus_minus]
         rw [hr]
         have hd := decode_flt t h
         have h2 := decodeAll_cons (.op .TokenMinus) (.op .TokenMinus) _ _ rfl (decodeAll_single _ _ hd)
@@ -185,7 +222,10 @@ theorem decode_atomRaws (a : Atom) (h : atomDecOK a = true) (x : Bool) :
           simp [fltNegText] at hn
         have hr : atomRaws (.num (.flt c)) = [.number c] := by
           simp only [atomRaws]
-          rw [atomText_flt, String.ofList_toList]
+          unfold splitMinus
+          split
+          · rename_i t heq; exact absurd heq (hne t)
+          · rw [atomText_flt, String.ofList_toList]
         rw [hr]
         have := decodeAll_single _ _ hd
         simpa [normLit, hn, fmtToksP] using this
@@ -207,7 +247,7 @@ theorem decode_atomRaws (a : Atom) (h : atomDecOK a = true) (x : Bool) :
           have ht := atomText_int10_neg n
           have hr : atomRaws (.num (.int 10 (Int.negSucc n))) =
               [.op .TokenMinus, .number (String.ofList (Nat.toDigits 10 (n + 1)))] := by
-            simp [atomRaws, ht]
+            simp only [atomRaws, ht, splitMinus_minus]
           have hb : ((n + 1 : Nat) : Int) ≤ int64Max := by
             have : Int.negSucc n = -((n + 1 : Nat) : Int) := rfl
             rw [this] at hlo
@@ -246,6 +286,7 @@ theorem needsParens_norm (e : Expr) (o : BinOp) (s : Bool) : needsParens (norm e
   | lit a =>
     simp only [norm, normLit]
     split
+    · split <;> simp [needsParens]
     · split <;> simp [needsParens]
     · split <;> simp [needsParens]
     · simp [needsParens]
